@@ -723,6 +723,11 @@ func (multi *MultiEpoch) StreamTransactions(params *old_faithful_grpc.StreamTran
 	if params.EndSlot != nil {
 		endSlot = *params.EndSlot
 	}
+	if endSlot == math.MaxUint64 {
+		// The address-index query takes endSlot+1 as its exclusive upper bound: keep it from
+		// wrapping around to 0 (which selected nothing). No block can have this slot number.
+		endSlot--
+	}
 	gsfaReader, epochNums := multi.getGsfaReadersInEpochDescendingOrderForSlotRange(ctx, startSlot, endSlot)
 
 	gsfaReadersLoaded := true
